@@ -1442,6 +1442,12 @@ func (d *Dec) Check() (issues []Issue, links, guards int) {
 			if !(c.g.Succ == a.At.Block() || c.g.Succ.Dominates(a.At.Block())) {
 				continue
 			}
+			// the check's SUCCESS EDGE must dominate the read, not just its target block: a
+			// short-circuit condition (`n > 0 && off >= len`) reaches the same block without
+			// the comparison having been made
+			if !edgeDominates(c.g.At.Block(), c.g.Succ) {
+				continue
+			}
 			if near == nil || fa.x.domI(near.g.At, c.g.At) {
 				near = c
 			}
@@ -2016,4 +2022,15 @@ func (x *X) mergeByteReads(raws []rawAtom) []rawAtom {
 		i += k - 1
 	}
 	return out
+}
+
+// edgeDominates: every way into `to` is the edge from `from` or a back edge
+// from inside the region `to` dominates.
+func edgeDominates(from, to *ssa.BasicBlock) bool {
+	for _, p := range to.Preds {
+		if p != from && !to.Dominates(p) {
+			return false
+		}
+	}
+	return true
 }
